@@ -472,7 +472,7 @@ class Oracle:
 
 
 def run(ctx):
-    depth = int(__import__('os').environ.get('C11_DEPTH', 5 if ctx.thorough else 3))
+    depth = int(__import__('os').environ.get('C11_DEPTH', 6 if ctx.thorough else 3))
     oracle = Oracle(ctx)
     ops = all_ops(ctx.thorough)
     inits = [(ev,) for ev in ctor_events(ctx.thorough)]
